@@ -76,17 +76,19 @@ pub fn interp1d_linear_unchecked(
             idx += 1;
         }
 
-        // out of bounds, optionally extrapolate
-        if idx == 0 || idx > n {
+        // out of bounds, optionally extrapolate (the scan above stops at n - 1, so a target to
+        // the right of the last abscissa has to be detected separately)
+        let right = tgt[i] > x[n - 1];
+        if idx == 0 || right {
             match extrapolate {
                 ExtrapolationMode::Panic => panic!(
                     "Target out of bounds, need to extrapolate, but extrapolation mode is panic!"
                 ),
-                ExtrapolationMode::Fill(left, right) => {
+                ExtrapolationMode::Fill(left, right_fill) => {
                     if idx == 0 {
                         interp.push(left);
-                    } else if idx > n {
-                        interp.push(right);
+                    } else {
+                        interp.push(right_fill);
                     }
                 }
                 ExtrapolationMode::Extrapolate => {
@@ -97,10 +99,10 @@ pub fn interp1d_linear_unchecked(
                         interp.push(-slope * (x[0] - tgt[i]) + y[0]);
                     }
                     // extrapolate right
-                    else if idx > n {
+                    else {
                         /* print("extrapolating right ", tgt[i]); */
-                        let slope = (y[n] - y[n - 1]) / (x[n] - x[n - 1]);
-                        interp.push(slope * (tgt[i] - x[n]) + y[n]);
+                        let slope = (y[n - 1] - y[n - 2]) / (x[n - 1] - x[n - 2]);
+                        interp.push(slope * (tgt[i] - x[n - 1]) + y[n - 1]);
                     }
                 }
             }
